@@ -261,7 +261,11 @@ def probe_battery(A, sids, variant=0):
         sol = [["solution", s, x, BVV(v, W), [], True] for v in (0, 1, m)]
         sat = [["satisfiable", s, []]]
         tru = [[c, s, t, []] for t in A["cons"][:6] for c in ("is_true", "is_false")] if A.get("truth_probes") else []
-        per[s] = sat + ev + mm + sol + tru if variant == 0 else tru + mm + sat + sol + ev
+        # the full joint model set (every variable at once, one more than there are assignments): by answers alone
+        # it pins the solver's state down to the denotation of its constraints
+        nv = len([1 for _, w in A["vars"] if w])
+        joint = [["batch_eval", s, [BVS(n, w) for n, w in A["vars"] if w], (1 << (W * nv)) + 1, []]] if W * nv <= 6 else []
+        per[s] = sat + ev + mm + sol + tru + joint if variant == 0 else tru + mm + sat + sol + ev + joint
     if variant != 2:
         return [q for s in sids for q in per[s]]
     P = []
@@ -499,6 +503,14 @@ def run_history(H, vars_, tid, cfg, step_hook=None):
                 e["ret"] = [[vbits(bool(r), None)]]
             elif call == "simplify":
                 sol.simplify()
+            elif call == "partition":
+                # projection of a composite's refined state: which child is registered under which names, and the
+                # variables of that child (spec/SolverComposite.tla: reg, VarsOf(cs)); observation only
+                kidsd = {}
+                for nm, ch in getattr(sol, "_solvers", {}).items():
+                    kidsd.setdefault(id(ch), [ch, []])[1].append(nm)
+                e["parts"] = sorted([sorted(nms), sorted(ch.variables)] for ch, nms in kidsd.values())
+                e["flag"] = bool(getattr(sol, "_unsat", False))
             elif call == "downsize":
                 sol.downsize()
             elif call == "branch":
@@ -583,6 +595,7 @@ def main():
     rng = random.Random(job.get("seed", 0))
     out = ShardWriter(sys.argv[2], job.get("shard", 400))
     n_calls = 0
+    drift = {"checked": 0, "drift": 0, "finer": 0, "samples": []}
     if job["mode"] == "random":
         A = get_alphabet(job)
         for i in range(job["n"]):
@@ -614,8 +627,26 @@ def main():
                                                  A["vars"], job.get("cfg", {})))
             pass
             n_calls += len(tr["ev"])
+            if job.get("expect_parts"):
+                # refined-state conformance: the partition the model (SolverComposite.tla) predicts for this history
+                want = job["expect_parts"][i]
+                got = next((e for e in tr["ev"] if e["call"] == "partition"), None)
+                if got is not None and got["exc"] == "":
+                    drift["checked"] += 1
+                    if got["parts"] != want["parts"] or got["flag"] != want["flag"]:
+                        # the model does not rewrite constraints; Z3's simplification does (x == 1 substituted into
+                        # y == x, ...), which can only make the real partition FINER than the model's
+                        finer = got["flag"] == want["flag"] and all(
+                            any(set(g[0]) <= set(w[0]) and set(g[1]) <= set(w[1]) for w in want["parts"]) for g in got["parts"])
+                        drift["finer" if finer else "drift"] += 1
+                        if not finer and len(drift["samples"]) < 3:
+                            drift["samples"].append({"history": H, "model": want, "code": {"parts": got["parts"], "flag": got["flag"]}})
             out.write(tr, nontrivial_key=[H], outcome="trace", sample={"history": H[:8]})
-    out.close({"calls": n_calls})
+    extra = {"calls": n_calls}
+    if drift["checked"]:
+        extra.update({"partition_checked": drift["checked"], "partition_drift": drift["drift"],
+                      "partition_finer": drift["finer"], "drift_samples": drift["samples"]})
+    out.close(extra)
 
 
 def core_probes(S, meta):
@@ -648,6 +679,10 @@ def continue_history(PH, S, meta, vars_, cfg):
                 e["e"], e["n"] = op[2], op[3]
                 a = B(op[2])
                 e["ret"] = [[vbits(v, a)] for v in sol.eval(a, op[3], **xk)]
+            elif call == "batch_eval":
+                e["es"], e["n"] = op[2], op[3]
+                aa = [B(t) for t in op[2]]
+                e["ret"] = [[vbits(v, a) for v, a in zip(tup, aa)] for tup in sol.batch_eval(aa, op[3], **xk)]
             elif call in ("min", "max"):
                 e["e"], e["signed"] = op[2], bool(op[3])
                 a = B(op[2])
